@@ -85,6 +85,9 @@ type exec struct {
 	raceMark int64
 	// per shared expression: operations whose result was compared with the oracle
 	usedCompared map[int]int
+	// C12: count(P) / reverse(P) compiled once per run and expression
+	longCount, longRev map[int]*xpath.Expr
+	longUses           map[int]int
 }
 
 type soloKey struct {
@@ -359,8 +362,9 @@ func (x *exec) histC04() {
 		return l
 	}
 	interleaved := 0
-	for i, st := range s.Steps {
-		if x.stop {
+	for _, xs := range scn.Expand(s.Steps) {
+		i, st := xs.I, xs.St
+		if x.stop || len(x.res.Viol) > 0 && s.Steps[i].Rep > 0 {
 			break
 		}
 		ei := st.E % len(s.Exprs)
